@@ -84,6 +84,14 @@ def cmpInt (op : Op) (a b : Int) : Except PyErr V :=
 def bt (r : Except PyErr Int) : Except PyErr V := r.map V.btTd
 def btD (r : Except PyErr Int) : Except PyErr V := r.map V.btDt
 
+/-- `_compare_hightime_timedelta` / `_compare_hightime_datetime`: the bintime value is promoted to hightime; when that is
+    impossible (OverflowError: it lies beyond hightime's range, on the side of its sign) it is beyond every hightime value.
+    The result of the operator is `compare(...) <op> 0`. -/
+def cmpHt (op : Op) (promoted : Except PyErr Int) (ticks : Int) (other : Int) : Except PyErr V :=
+  match promoted with
+  | .ok p => cmpInt op p other
+  | .error _ => cmpInt op (if ticks < 0 then -1 else 1) 0
+
 /-- `TimeDelta.__op__(self, value)` -/
 def tdOp (op : Op) (a : Int) (r : V) : Option (Except PyErr V) :=
   open Gen.TimeDelta in
@@ -106,7 +114,7 @@ def tdOp (op : Op) (a : Int) (r : V) : Option (Except PyErr V) :=
   | .divmod, .dtTd u => some ((btOfDt u).bind fun b => (divmod_TD a b).map fun p => V.pair p.1 p.2)
   | .divmod, .htTd y => some ((btOfHt y).bind fun b => (divmod_TD a b).map fun p => V.pair p.1 p.2)
   | op, .btTd b => if isCmp op then some (cmpInt op a b) else none
-  | op, .htTd y => if isCmp op then some ((htOfBt a).bind fun ya => cmpInt op ya y) else none -- promote bt → ht
+  | op, .htTd y => if isCmp op then some (cmpHt op (htOfBt a) a y) else none -- `_compare_hightime_timedelta`: promote bt → ht
   | op, .dtTd u => if isCmp op then some ((btOfDt u).bind fun b => cmpInt op a b) else none -- promote dt → bt
   | _, _ => none
 
@@ -139,7 +147,7 @@ def dtOp (op : Op) (a : Int) (r : V) : Option (Except PyErr V) :=
   | .sub, .dtTd u => some ((btOfDt u).bind fun d => btD (sub_TD a d))
   | .sub, .htTd y => some ((btOfHt y).bind fun d => btD (sub_TD a d))
   | op, .btDt b => if isCmp op then some (cmpInt op a b) else none
-  | op, .htDt q => if isCmp op then some ((htOfBtDt a).bind fun qa => cmpInt op qa q) else none
+  | op, .htDt q => if isCmp op then some (cmpHt op (htOfBtDt a) a q) else none   -- `_compare_hightime_datetime`
   | op, .dtDt p => if isCmp op then some ((btDtOfDt p).bind fun b => cmpInt op a b) else none
   | _, _ => none
 
